@@ -1,10 +1,27 @@
 import Toq.Driver.C01
 import Toq.Driver.C02
+import Toq.Driver.C04
+import Toq.Driver.C05
+import Toq.Driver.C06
+import Toq.Driver.C07
+import Toq.Driver.C08
+import Toq.Driver.C09
+import Toq.Driver.C10
+import Toq.Driver.C11
+import Toq.Driver.C12
+import Toq.Driver.C13
+import Toq.Driver.C14
+import Toq.Driver.C15
+import Toq.Driver.C16
+import Toq.Driver.C17
+import Toq.Driver.C18
+import Toq.Driver.C19
+import Toq.Driver.C20
 /-! Line-protocol driver: `<op> <json>` per input line, one JSON (or `bad-op` / `error:…`) per output line. -/
 open Lean Toq.Driver
 
 def allHandlers : List (String × Handler) :=
-  C01.handlers ++ C02.handlers
+  C01.handlers ++ C02.handlers ++ C04.handlers ++ C05.handlers ++ C06.handlers ++ C07.handlers ++ C08.handlers ++ C09.handlers ++ C10.handlers ++ C11.handlers ++ C12.handlers ++ C13.handlers ++ C14.handlers ++ C15.handlers ++ C16.handlers ++ C17.handlers ++ C18.handlers ++ C19.handlers ++ C20.handlers
 
 def respond (line : String) : String :=
   let line := line.trimAscii.toString
